@@ -110,6 +110,7 @@ type harnessEvidence struct {
 	Conformance     int            `json:"conformance_replays_ok"`
 	ConformanceBad  int            `json:"conformance_replays_mismatch"`
 	Skipped         string         `json:"skipped,omitempty"`
+	Filtered        int            `json:"candidates_of_other_properties_ignored,omitempty"`
 	Intercepted     int            `json:"summarised_calls,omitempty"`
 	Notes           []string       `json:"notes,omitempty"`
 	samples         []any
@@ -226,7 +227,20 @@ func runProperty(prop, tier string) int {
 		}
 
 		// candidate violations: replay natively; only what reproduces counts
+		perHarness := 0
 		for _, v := range st.Viol {
+			if len(h.Only) > 0 && v.Kind == "assert" {
+				keep := false
+				for _, pre := range h.Only {
+					if strings.HasPrefix(v.Label, pre) {
+						keep = true
+					}
+				}
+				if !keep {
+					ev.Filtered++
+					continue
+				}
+			}
 			res := getRB().run(h.Fn, v.Model, 120*time.Second)
 			confirmed := false
 			var labels []string
@@ -267,6 +281,10 @@ func runProperty(prop, tier string) int {
 				continue
 			}
 			violations++
+			perHarness++
+			if perHarness > 6 {
+				continue // confirmed and counted; only the first few get a replay file and a line
+			}
 			nviolFiles++
 			path := filepath.Join(verifDir(), "replays", fmt.Sprintf("%s-%s-%d.json", prop, h.Fn, nviolFiles))
 			writeReplayFile(path, h.Fn, v.Model, map[string]any{
@@ -277,6 +295,9 @@ func runProperty(prop, tier string) int {
 			samples = append(samples, map[string]any{"violation": v.Label, "kind": v.Kind, "choices": v.Choices, "model": v.Model})
 		}
 
+		if perHarness > 6 {
+			fmt.Printf("  ... and %d more confirmed violations in %s (see evidence)\n", perHarness-6, h.Fn)
+		}
 		// conformance: replay a sample of passing paths natively
 		nconf := 6
 		if thorough {
